@@ -772,3 +772,241 @@ func relaxTerm(e interface{}) interface{} {
 	}
 	return out
 }
+
+// ---------------------------------------------------------------------------
+// Bounded stand-in for a contract that no longer binds to the code.
+//
+// When a loop is rewritten, the loop invariants of its contract name locals
+// that no longer exist: the function's postconditions are then neither proved
+// nor refuted ("STALE"). For functions over plain data (strings, byte slices,
+// integers, booleans) whose precondition and postcondition are executable, the
+// clause is then checked on the real code over an enumerated input space:
+//   strings / []byte: every string of length <= 2 over all 256 bytes, every
+//     string of length 3 over 24 chosen bytes and of length 4 over 12 of them,
+//     and strings of lengths 127, 128, 129, 255, 256 (second and later string
+//     parameters: length <= 1 over all bytes, length 2 over the 24 bytes);
+//   integers: -2, -1, 0, 1, 2, 3, 127, 128, 255, 256, 65535, 65536, min, max of
+//     the type; booleans: both.
+// A failing input is a violation reproduced on the real code. Passing is
+// reported as a bounded check with this bound, never as a proof.
+
+func boundedKind(T types.Type) string {
+	switch u := T.Underlying().(type) {
+	case *types.Basic:
+		switch {
+		case u.Info()&types.IsString != 0:
+			return "string"
+		case u.Info()&types.IsBoolean != 0:
+			return "bool"
+		case u.Info()&types.IsInteger != 0:
+			return "int"
+		}
+	case *types.Slice:
+		if b, ok := u.Elem().Underlying().(*types.Basic); ok && b.Kind() == types.Uint8 {
+			return "bytes"
+		}
+	}
+	return ""
+}
+
+func tryBoundedCheck(L *Loaded, id string, g *Group) *ReplayResult {
+	if g.Class != "POST" || len(g.Instances) == 0 {
+		return nil
+	}
+	o := g.Instances[0]
+	x := o.x
+	if x == nil || x.fn == nil || x.ctr == nil {
+		return nil
+	}
+	fn := x.fn
+	if fn.Parent() != nil || len(fn.TypeArgs()) > 0 || len(fn.Params) == 0 || len(fn.Params) > 3 {
+		return nil
+	}
+	sp := L.spkgs[FuncPkgPath(fn)]
+	if sp == nil {
+		return nil
+	}
+	var kinds []string
+	for _, p := range fn.Params {
+		k := boundedKind(p.Type())
+		if k == "" {
+			return nil
+		}
+		kinds = append(kinds, k)
+	}
+	m := postNameRe.FindStringSubmatch(o.Name)
+	if m == nil {
+		return nil
+	}
+	var clause *Clause
+	for _, c := range x.ctr.Ensures {
+		if c.Label == m[1] || c.Src == m[1] {
+			clause = c
+		}
+	}
+	if clause == nil {
+		return nil
+	}
+	rb := &replayBuilder{x: x, vals: map[string]string{}, imports: map[string]string{"testing": "testing", "fmt": "fmt", "strings": "strings", "math": "math"}, pkg: sp.Pkg}
+	c := &goCompiler{x: x, rb: rb, env: map[string]string{}, helpers: map[string]string{}, results: fn.Signature.Results().Len()}
+	for i, p := range fn.Params {
+		c.env[p.Name()] = fmt.Sprintf("in%d", i)
+	}
+	var pres []string
+	for _, r := range x.ctr.Requires {
+		c.inOld = true
+		gsrc := c.expr(r.Expr)
+		c.inOld = false
+		if c.failMsg != "" {
+			return nil // the precondition cannot be evaluated: an enumerated input proves nothing
+		}
+		pres = append(pres, gsrc)
+	}
+	post := c.expr(clause.Expr)
+	if c.failMsg != "" {
+		return nil
+	}
+	var sb strings.Builder
+	sb.WriteString("\treplayIte := func(c bool, a, b func() any) any {\n\t\tif c {\n\t\t\treturn a()\n\t\t}\n\t\treturn b()\n\t}\n\t_ = replayIte\n")
+	sb.WriteString("\tconst replayLo, replayHi = -2, 260\n\treplayInU := func(v int64) {\n\t\tif v < replayLo+1 || v > replayHi-2 {\n\t\t\tpanic(\"quantifier bound outside the enumerated universe\")\n\t\t}\n\t}\n\t_ = replayInU\n\t_ = math.MaxInt64\n")
+	sort.Strings(c.order)
+	for _, h := range c.order {
+		parts := strings.SplitN(c.helpers[h], "\n", 2)
+		sb.WriteString(parts[0] + "\n")
+		fmt.Fprintf(&sb, "\t_ = spec_%s\n", h)
+	}
+	for _, h := range c.order {
+		parts := strings.SplitN(c.helpers[h], "\n", 2)
+		if len(parts) == 2 {
+			sb.WriteString(parts[1])
+		}
+	}
+	sb.WriteString(`	all := make([]byte, 256)
+	for i := range all {
+		all[i] = byte(i)
+	}
+	alpha := []byte{'a', 'Z', '0', '_', '.', '-', '/', ':', '@', ' ', '!', '[', 0x60, '{', 0x00, 0x7f, 0x80, 0xa1, 0xbf, 0xc2, 0xc5, 0xdf, 0xe0, 0xff}
+	var big, small []string
+	big = append(big, "")
+	small = append(small, "")
+	for _, a := range all {
+		big = append(big, string([]byte{a}))
+		small = append(small, string([]byte{a}))
+		for _, b := range all {
+			big = append(big, string([]byte{a, b}))
+		}
+	}
+	for _, a := range alpha {
+		for _, b := range alpha {
+			small = append(small, string([]byte{a, b}))
+			for _, c := range alpha {
+				big = append(big, string([]byte{a, b, c}))
+			}
+		}
+	}
+	for _, a := range alpha[:12] {
+		for _, b := range alpha[:12] {
+			for _, c := range alpha[12:] {
+				for _, d := range alpha[12:] {
+					big = append(big, string([]byte{a, b, c, d}))
+				}
+			}
+		}
+	}
+	for _, n := range []int{127, 128, 129, 255, 256} {
+		big = append(big, strings.Repeat("a", n))
+	}
+	ints := []int64{-2, -1, 0, 1, 2, 3, 127, 128, 255, 256, 65535, 65536, math.MinInt64, math.MaxInt64}
+	_, _, _ = big, small, ints
+	tried, checked := 0, 0
+	failed := false
+`)
+	// nested loops
+	firstStr := true
+	var closers int
+	var fmts, args []string
+	for i, p := range fn.Params {
+		T := rb.typeStr(p.Type())
+		switch kinds[i] {
+		case "string", "bytes":
+			set := "small"
+			if firstStr {
+				set, firstStr = "big", false
+			}
+			fmt.Fprintf(&sb, "\tfor _, s%d := range %s {\n\tin%d := %s(s%d)\n", i, set, i, T, i)
+			fmts = append(fmts, fmt.Sprintf("%s=%%q", p.Name()))
+			args = append(args, fmt.Sprintf("string(in%d)", i))
+		case "int":
+			fmt.Fprintf(&sb, "\tfor _, n%d := range ints {\n\tin%d := %s(n%d)\n\tif int64(in%d) != n%d {\n\t\tcontinue\n\t}\n", i, i, T, i, i, i)
+			fmts = append(fmts, fmt.Sprintf("%s=%%d", p.Name()))
+			args = append(args, fmt.Sprintf("int64(in%d)", i))
+		case "bool":
+			fmt.Fprintf(&sb, "\tfor _, in%d := range []bool{false, true} {\n", i)
+			fmts = append(fmts, fmt.Sprintf("%s=%%v", p.Name()))
+			args = append(args, fmt.Sprintf("in%d", i))
+		}
+		closers++
+	}
+	call := ""
+	var an []string
+	for i := range fn.Params {
+		an = append(an, fmt.Sprintf("in%d", i))
+	}
+	if fn.Signature.Recv() != nil {
+		call = fmt.Sprintf("%s.%s(%s)", an[0], fn.Name(), strings.Join(an[1:], ", "))
+	} else {
+		call = fmt.Sprintf("%s(%s)", fn.Name(), strings.Join(an, ", "))
+	}
+	sb.WriteString("\tif failed {\n\t\tbreak\n\t}\n\ttried++\n\tfunc() {\n\t\tphase := \"pre\"\n")
+	fmt.Fprintf(&sb, "\t\tdefer func() {\n\t\t\tif r := recover(); r != nil && phase == \"call\" {\n\t\t\t\tfailed = true\n\t\t\t\tfmt.Printf(\"REPLAY-PANIC: %%v on %s\\n\", r, %s)\n\t\t\t}\n\t\t}()\n", strings.Join(fmts, " "), strings.Join(args, ", "))
+	for _, p := range pres {
+		fmt.Fprintf(&sb, "\t\tif !(%s) {\n\t\t\treturn\n\t\t}\n", p)
+	}
+	for _, o := range c.olds {
+		sb.WriteString("\t" + o)
+	}
+	sb.WriteString("\t\tchecked++\n\t\tphase = \"call\"\n")
+	if c.results > 0 {
+		var rs []string
+		for i := 0; i < c.results; i++ {
+			rs = append(rs, fmt.Sprintf("r%d", i))
+		}
+		fmt.Fprintf(&sb, "\t\t%s := %s\n\t\tphase = \"post\"\n", strings.Join(rs, ", "), call)
+		for _, r := range rs {
+			fmt.Fprintf(&sb, "\t\t_ = %s\n", r)
+		}
+	} else {
+		sb.WriteString("\t\t" + call + "\n\t\tphase = \"post\"\n")
+	}
+	fmt.Fprintf(&sb, "\t\tif !(%s) {\n\t\t\tfailed = true\n\t\t\tfmt.Printf(\"REPLAY-POST-FALSE: ensures[%s] is false for the real function on %s\\n\", %s)\n\t\t}\n\t}()\n", post, strings.ReplaceAll(clause.Label, "\"", "'"), strings.Join(fmts, " "), strings.Join(args, ", "))
+	for i := 0; i < closers; i++ {
+		sb.WriteString("\t}\n")
+	}
+	sb.WriteString("\tif !failed {\n\t\tfmt.Printf(\"REPLAY-BOUNDED-PASS: %d inputs enumerated, %d satisfied the precondition\\n\", tried, checked)\n\t}\n")
+	var imps []string
+	for p, n := range rb.imports {
+		if pkgShort(p) == n {
+			imps = append(imps, fmt.Sprintf("\t%q", p))
+		} else {
+			imps = append(imps, fmt.Sprintf("\t%s %q", n, p))
+		}
+	}
+	sort.Strings(imps)
+	src := fmt.Sprintf("package %s\n\nimport (\n%s\n)\n\nfunc TestVerifReplay(t *testing.T) {\n%s}\n", sp.Pkg.Name(), strings.Join(imps, "\n"), sb.String())
+	out, err := runOverlayTest(L, FuncPkgPath(fn), src)
+	res := &ReplayResult{TestSource: src, Output: out, Pkg: FuncPkgPath(fn), Mode: "bounded enumeration (contract stale)"}
+	switch {
+	case strings.Contains(out, "REPLAY-POST-FALSE"):
+		res.Reproduced = true
+		res.Summary = "bounded enumeration on the real code: " + firstLineContaining(out, "REPLAY-POST-FALSE")
+	case strings.Contains(out, "REPLAY-PANIC"):
+		res.Reproduced = true
+		res.Summary = "bounded enumeration on the real code: " + firstLineContaining(out, "REPLAY-PANIC")
+	case strings.Contains(out, "REPLAY-BOUNDED-PASS"):
+		res.Summary = "bounded stand-in (not a proof): " + firstLineContaining(out, "REPLAY-BOUNDED-PASS")
+	default:
+		_ = err
+		res.Summary = "bounded stand-in did not build or run: " + firstLine(out)
+	}
+	return res
+}
